@@ -81,5 +81,112 @@ example :
     select ["k"] [{ child := "A", pats := [([some 1], none)] }, { child := "B", pats := [([some 2], none)] }]
       (.obj [("k", .int 2), ("payload", .arr [])]) = some "B" := by rfl
 
+
+/-! ### an arm pattern is the conjunction of the case's constraints -/
+
+theorem patMatches_map (f g : String → Option Nat) (n : Nat) (plen : Option Nat) : ∀ (ids : List String),
+    patMatches (ids.map g) n (ids.map f, plen) = true ↔
+      (∀ k ∈ ids, ∀ x, f k = some x → g k = some x) ∧ (∀ m, plen = some m → n = m)
+  | [] => by
+    simp only [patMatches, List.map_nil, List.zip_nil_left, List.all_nil, Bool.true_and, List.not_mem_nil,
+      false_implies, implies_true, true_and]
+    cases plen with
+    | none => simp
+    | some m => simp
+  | a :: l => by
+    have ih := patMatches_map f g n plen l
+    simp only [patMatches, Bool.and_eq_true] at ih ⊢
+    simp only [List.map_cons, List.zip_cons_cons, List.all_cons, Bool.and_eq_true, List.mem_cons, forall_eq_or_imp]
+    constructor
+    · intro ⟨⟨h1, h2⟩, h3⟩
+      obtain ⟨q1, q2⟩ := ih.mp ⟨h2, h3⟩
+      refine ⟨⟨?_, q1⟩, q2⟩
+      intro x hx
+      rw [hx] at h1
+      simpa using h1
+    · intro ⟨⟨h1, h2⟩, h3⟩
+      obtain ⟨q1, q2⟩ := ih.mpr ⟨h2, h3⟩
+      refine ⟨⟨?_, q1⟩, q2⟩
+      cases hf : f a with
+      | none => rfl
+      | some x => simpa using h1 x hf
+
+/-- **the pattern the emitted `match` tests for a case is exactly "every constraint of the case holds of the
+    parent's field values" (and, where children differ only in size, "the payload has the case's length")**:
+    `ids` is the tuple of field names the match scrutinises; a case contributes `Some(value)` at the names it
+    constrains and `_` elsewhere -/
+theorem patMatches_iff (ids : List String) (c : SpecCase) (plen : Option Nat) (pv : Value) :
+    patMatches (ids.map fun k => (pv.get? k).bind Value.asNat?)
+      (((pv.get? "payload").bind Value.asList?).getD []).length (tupleOf ids c, plen) = true ↔
+    (∀ k ∈ ids, ∀ x, List.lookup k c.constraints = some x → (pv.get? k).bind Value.asNat? = some x) ∧
+    (∀ n, plen = some n → (((pv.get? "payload").bind Value.asList?).getD []).length = n) :=
+  patMatches_map (fun k => List.lookup k c.constraints) (fun k => (pv.get? k).bind Value.asNat?) _ plen ids
+
+/-- `specialize()` returns child `x` only if some case of `x` — a set of accumulated constraints of `x` or of
+    a descendant of `x`, gathered by `gather_specialize_cases` — holds of the parent value, constraint by
+    constraint -/
+theorem select_sound_constraints (ids : List String) (keep : List SpecCase) (withSize : Bool) (pv : Value) (x : String)
+    (arms : List Arm)
+    (harms : ∀ a ∈ arms, ∀ p ∈ a.pats, ∃ c ∈ keep, c.id = a.child ∧
+      p = (tupleOf ids c, if withSize then (match c.size with | .static s => some (s / 8) | _ => none) else none))
+    (h : select ids arms pv = some x) :
+    ∃ c ∈ keep, c.id = x ∧
+      ∀ k ∈ ids, ∀ v, List.lookup k c.constraints = some v → (pv.get? k).bind Value.asNat? = some v := by
+  obtain ⟨a, ha, hax, p, hp, hm⟩ := select_sound ids arms pv x h
+  obtain ⟨c, hc, hcid, rfl⟩ := harms a ha p hp
+  exact ⟨c, hc, by rw [hcid, hax], ((patMatches_iff ids c _ pv).mp hm).1⟩
+
+
+/-! ### the emitted table consists of gathered cases -/
+
+theorem eraseDupsBy_loop_mem {α : Type} (r : α → α → Bool) : ∀ (as bs : List α) (x : α),
+    x ∈ List.eraseDupsBy.loop r as bs → x ∈ as ∨ x ∈ bs
+  | [], bs, x, h => by simp only [List.eraseDupsBy.loop, List.mem_reverse] at h; exact Or.inr h
+  | a :: as, bs, x, h => by
+    simp only [List.eraseDupsBy.loop] at h
+    split at h
+    · rcases eraseDupsBy_loop_mem r as bs x h with h | h
+      · exact Or.inl (List.mem_cons_of_mem _ h)
+      · exact Or.inr h
+    · rcases eraseDupsBy_loop_mem r as (a :: bs) x h with h | h
+      · exact Or.inl (List.mem_cons_of_mem _ h)
+      · rcases List.mem_cons.mp h with rfl | h
+        · exact Or.inl (List.mem_cons_self ..)
+        · exact Or.inr h
+
+theorem mem_of_mem_eraseDups {α : Type} [BEq α] (l : List α) (x : α) (h : x ∈ l.eraseDups) : x ∈ l := by
+  rcases eraseDupsBy_loop_mem (· == ·) l [] x h with h | h
+  · exact h
+  · cases h
+
+/-- every pattern of every arm of the emitted `match` is the pattern of a case that
+    `gather_specialize_cases` collected for that child (or a descendant of it) -/
+theorem table_arms_from_cases (f : File) (sc : List DeclSchema) (d : Decl) (ids : List String) (withSize : Bool)
+    (arms : List Arm) (h : table f sc d = some (ids, withSize, arms)) :
+    ∀ a ∈ arms, ∀ p ∈ a.pats, ∃ c ∈ allCases f sc d, c.id = a.child ∧
+      p = (tupleOf ids c, if withSize then (match c.size with | .static s => some (s / 8) | _ => none) else none) := by
+  simp only [table] at h
+  split at h
+  · cases h
+  · simp only [Option.some.injEq, Prod.mk.injEq] at h
+    obtain ⟨rfl, rfl, rfl⟩ := h
+    intro a ha p hp
+    simp only [List.mem_map] at ha
+    obtain ⟨cid, _, rfl⟩ := ha
+    simp only at hp
+    have hp' := mem_of_mem_eraseDups _ p hp
+    simp only [List.mem_map, List.mem_filter, beq_iff_eq] at hp'
+    obtain ⟨c, ⟨⟨hc, _⟩, hcid⟩, rfl⟩ := hp'
+    exact ⟨c, hc, hcid, rfl⟩
+
+/-- **C06, `specialize()` selects only on matching constraints**: for the table the generator emits, a parent
+    value is dispatched to child `x` only if every constraint of some gathered case of `x` holds of it -/
+theorem specialize_selects_on_constraints (f : File) (sc : List DeclSchema) (d : Decl) (ids : List String)
+    (withSize : Bool) (arms : List Arm) (h : table f sc d = some (ids, withSize, arms)) (pv : Value) (x : String)
+    (hs : select ids arms pv = some x) :
+    ∃ c ∈ allCases f sc d, c.id = x ∧
+      ∀ k ∈ ids, ∀ v, List.lookup k c.constraints = some v → (pv.get? k).bind Value.asNat? = some v :=
+  select_sound_constraints ids (allCases f sc d) withSize pv x arms (table_arms_from_cases f sc d ids withSize arms h) hs
+
 end Inherit
 end Pdlv
